@@ -614,6 +614,15 @@ func (x *Exec) trCall(e *SExpr, env *TrEnv) *Term {
 			specErr(e, "elems needs a slice")
 		}
 		return mk("elems_"+mangle(v.Sort), arraySort(x.u.sliceElem(v.Sort), SBool), v)
+	case "applyVal", "applyErr":
+		// the results of calling a function value of type func(any) (any, error) through its opaque pure model
+		// (the engine lowers such calls to apply0_Any_Any / apply1_Any_Err)
+		f := x.trExpr(e.Args[0], env)
+		v := x.trExpr(e.Args[1], env)
+		if e.Name == "applyVal" {
+			return mk("apply0_Any_Any", SAny, f, v)
+		}
+		return mk("apply1_Any_Err", SErr, f, v)
 	case "sortedBy":
 		// sortedBy(f, s): what slices.IsSortedFunc(s, f) returns / slices.SortFunc establishes (engine symbol)
 		f := x.trExpr(e.Args[0], env)
